@@ -273,6 +273,13 @@ def run(tier, seed, rng):
         for first in fam:
             rest = [t for t in fam if t != first]
             extra.append(dict(src_d=first, src_l=lam(first), env=envs[2], symbolic=False, also=[[t, lam(t)] for t in rest]))
+    # oracle-only: the other ways to call chooses: positional options, keyword options (keys become ascii bytes), tuples
+    for env in envs:
+        for d_txt, l_txt in (("((f0 % 3)).chooses(5, 6, (f1 + 1))", "_ch((pkt.f0 % 3), (5, 6, (pkt.f1 + 1)))"),
+                             ("((f0 % 2)).chooses((7, f1))", "_ch((pkt.f0 % 2), (7, pkt.f1))"),
+                             ("(f2).chooses(ab=1, x=(f0 + 2))", "_ch(pkt.f2, {b'ab': 1, b'x': (pkt.f0 + 2)})"),
+                             ("(f2[0:1]).chooses(a=f0, b=9)", "_ch(pkt.f2[0:1], {b'a': pkt.f0, b'b': 9})")):
+            extra.append(dict(src_d=d_txt, src_l=l_txt, env=env, more_envs=[x for x in envs if x is not env], symbolic=False))
     parts = shard(cases + extra, (len(cases) + len(extra)) // NPROC + 1)
     outs = run_impl_parallel(os.path.join(VERIF, 'harness', 'impl_expr.py'), [dict(cases=p) for p in parts])
     outcomes = [o for p in outs for o in p]
